@@ -20,6 +20,7 @@ import (
 
 	"github.com/arr-ai/arrai/pkg/ctxfs"
 	"github.com/arr-ai/arrai/rel"
+	"github.com/arr-ai/arrai/tools"
 )
 
 // stdOsGetArgs returns a rel.Array of the program arguments in the context.
@@ -34,7 +35,11 @@ func stdOsGetEnv(ctx context.Context, value rel.Value) (rel.Value, error) {
 	if arraictx.IsCompiling(ctx) {
 		return rel.None, nil
 	}
-	return rel.NewString([]rune(os.Getenv(value.(rel.String).String()))), nil
+	name, is := tools.ValueAsString(value)
+	if !is {
+		return nil, fmt.Errorf("//os.get_env: name not a string: %v", value)
+	}
+	return rel.NewString([]rune(os.Getenv(name))), nil
 }
 
 func stdOsPathSeparator() rel.Value {
